@@ -1,6 +1,7 @@
 (* C03 - encoder output equals the X.690 encoding computed by an independent reference.
    Statements only. *)
-From PV Require Import Base.Bytes Model.Tag Spec.X690 Proofs.SpecOctets.
+From PV Require Import Base.Bytes Model.Tag Model.Types Model.TableTypes Model.Enc Spec.X690 Gen.Tables
+     Proofs.SpecOctets Proofs.TagsetShape Proofs.RoundTrip1 Proofs.DerReference.
 Local Open Scope N_scope.
 
 (* the reference's identifier octets (positional base-128 digits, X.690 8.1.2) are the octets the
@@ -15,3 +16,52 @@ Theorem C03_length_octets : forall (n: N) (l: bytes),
   enc_len n false = Ok l -> length_octets n = l.
 Proof. exact length_octets_is_enc_len. Qed.
 Print Assumptions C03_length_octets.
+
+(* For every input: the DER encoder's output is byte-identical to the distinguished encoding computed
+   by the independent X.690 reference (Spec/X690.v), for every simple type (BOOLEAN, INTEGER, ENUMERATED,
+   BIT STRING, OCTET STRING, NULL, OBJECT IDENTIFIER, binary/infinite/zero REAL, every character and
+   useful string type) under ANY stack of IMPLICIT/EXPLICIT tags, UNIVERSAL class included *)
+Theorem C03_der_is_reference_simple : forall T v b,
+  der_ref_val T v = true -> encode DER true 0 T v = Ok b -> X690.der T v = Some b.
+Proof. exact der_is_reference_simple. Qed.
+Print Assumptions C03_der_is_reference_simple.
+
+(* ... and recursively: SEQUENCE (mandatory, OPTIONAL and DEFAULT components) and SEQUENCE OF nested to
+   any depth over such types, under any tags.  Exclusions are exactly: SET, SET OF, CHOICE, ANY (not yet
+   proved), decimal REAL (the reference has none), a present-but-empty OPTIONAL constructed component
+   (finding F24: the encoder leaves it out, X.690 does not) *)
+Theorem C03_der_is_reference_deep : forall T v b,
+  der_ref_deep T v = true -> encode DER true 0 T v = Ok b -> X690.der T v = Some b.
+Proof. exact der_is_reference_deep. Qed.
+Print Assumptions C03_der_is_reference_deep.
+
+(* both directions: on the fragment, the encoder succeeds with b exactly when the reference says b
+   (lengths below 256^126, the limit of the length octets themselves) *)
+Theorem C03_der_encoder_is_reference_deep : forall T v b,
+  der_exact_deep T v = true -> N.of_nat (length b) < max_len ->
+  (encode DER true 0 T v = Ok b <-> X690.der T v = Some b).
+Proof. exact der_encoder_is_reference_deep. Qed.
+Print Assumptions C03_der_encoder_is_reference_deep.
+
+(* the encoder refuses only what the reference refuses (or what cannot be framed at all) *)
+Theorem C03_der_refusal_is_reference : forall T v e,
+  der_exact_val T v = true -> encode DER true 0 T v = Err e ->
+  X690.der T v = None \/ exists b, X690.der T v = Some b /\ max_len <= N.of_nat (length b).
+Proof. exact der_refusal_is_reference. Qed.
+Print Assumptions C03_der_refusal_is_reference.
+
+Example C03_der_is_reference_nonvacuous :
+  let T := TExp (mkTag Ctx false 40) (TImp (mkTag Appl false 5) (TExp (mkTag Priv false 1000) TInt)) in
+  let v := VInt (-129)%Z in
+  TagsetShape.wf_tags T = true /\ RoundTrip1.stage1_val DER DER T v = true /\ der_exact_val T v = true /\
+  encode DER true 0 T v = Ok [191; 40; 6; 101; 4; 2; 2; 255; 127] /\
+  der T v = Some [191; 40; 6; 101; 4; 2; 2; 255; 127].
+Proof. exact der_is_reference_witness_int. Qed.
+
+(* F24 seen from the theorem's side: why OPTIONAL constructed components are outside the fragment *)
+Example C03_refuted_empty_optional_constructed_F24 :
+  exists T v b b', encode DER true 0 T v = Ok b /\ X690.der T v = Some b' /\ b <> b'.
+Proof.
+  exists (TSeq [(Opt, TSeqOf TInt)]), (VRec [Some (VList [])]), [48; 0], [48; 2; 48; 0].
+  vm_compute. repeat split; discriminate.
+Qed.
